@@ -652,6 +652,87 @@ fn twin_tz(r: &mut Rng) {
     std::fs::remove_dir_all(&dir).ok();
 }
 
+
+// ---- field resolution (C14): bounded random search over field sets derived from real values, with drops and perturbations ----
+fn twin_parsed(r: &mut Rng) {
+    use chrono::format::Parsed;
+    let xs = ndt_grid(r);
+    let offs = [0i32, 3600, -3600, 19800, -12600, 86399, -86399, 1];
+    for (i, &x) in xs.iter().enumerate() { for rep in 0..6u64 {
+        let o = offs[((i as u64 + rep) % offs.len() as u64) as usize];
+        let off = FixedOffset::east_opt(o).unwrap();
+        let w = match x.checked_add_offset(off) { Some(w) => w, None => continue };       // wall clock
+        let leap = w.time().nanosecond() >= 1_000_000_000;
+        if leap && w.second() != 59 { continue; }                                           // not expressible as fields
+        let iw = w.iso_week();
+        let mut p = Parsed::new();
+        let mut perturbed = false;
+        // each field: keep / drop / perturb
+        macro_rules! fld { ($f:ident, $v:expr, $t:ty) => {{ let k = r.next() % 10; let v: $t = $v; if k < 6 { p.$f = Some(v); } else if k == 9 { perturbed = true; let d = [1i64, -1, 7, 100][(r.next() % 4) as usize]; p.$f = Some((v as i64).wrapping_add(d) as $t); } }}; }
+        fld!(year, w.year(), i32);
+        if w.year() >= 0 { fld!(year_div_100, w.year() / 100, i32); fld!(year_mod_100, w.year() % 100, i32); }
+        fld!(isoyear, iw.year(), i32);
+        if iw.year() >= 0 { fld!(isoyear_div_100, iw.year() / 100, i32); fld!(isoyear_mod_100, iw.year() % 100, i32); }
+        fld!(quarter, (w.month() + 2) / 3, u32); fld!(month, w.month(), u32); fld!(day, w.day(), u32); fld!(ordinal, w.ordinal(), u32);
+        fld!(isoweek, iw.week(), u32);
+        fld!(week_from_sun, (w.ordinal() + 6 - w.weekday().num_days_from_sunday()) / 7, u32); fld!(week_from_mon, (w.ordinal() + 6 - w.weekday().num_days_from_monday()) / 7, u32);
+        if r.next() % 10 < 6 { p.weekday = Some(w.weekday()); } else if r.next() % 10 == 0 { perturbed = true; p.weekday = Some(w.weekday().succ()); }
+        fld!(hour_div_12, w.hour() / 12, u32); fld!(hour_mod_12, w.hour() % 12, u32); fld!(minute, w.minute(), u32);
+        fld!(second, w.second() + leap as u32, u32);
+        if p.second.is_some() { fld!(nanosecond, w.nanosecond() % 1_000_000_000, u32); }
+        let ts = x.and_utc().timestamp();
+        fld!(timestamp, ts, i64);
+        if r.next() % 10 < 8 { p.offset = Some(o); }
+        let sup = p.clone();
+        let res = guard(|| p.to_datetime());
+        case();
+        match res {
+            Err(()) => found("Parsed::to_datetime", format!("{:?}", sup), "panic".into(), "a value (Ok or Err)".into()),
+            Ok(Ok(dt)) => {
+                // soundness: agrees with every supplied field
+                let l = dt.naive_local(); let liw = l.iso_week(); let lleap = l.nanosecond() >= 1_000_000_000;
+                let mut bad: Vec<&str> = vec![];
+                if sup.year.map_or(false, |v| v != l.year()) { bad.push("year"); }
+                if sup.year_div_100.map_or(false, |v| l.year() < 0 || v != l.year() / 100) { bad.push("year_div_100"); }
+                if sup.year_mod_100.map_or(false, |v| l.year() < 0 || v != l.year() % 100) { bad.push("year_mod_100"); }
+                if sup.isoyear.map_or(false, |v| v != liw.year()) { bad.push("isoyear"); }
+                if sup.isoyear_div_100.map_or(false, |v| liw.year() < 0 || v != liw.year() / 100) { bad.push("isoyear_div_100"); }
+                if sup.isoyear_mod_100.map_or(false, |v| liw.year() < 0 || v != liw.year() % 100) { bad.push("isoyear_mod_100"); }
+                if sup.quarter.map_or(false, |v| v != (l.month() + 2) / 3) { bad.push("quarter"); }
+                if sup.month.map_or(false, |v| v != l.month()) { bad.push("month"); }
+                if sup.day.map_or(false, |v| v != l.day()) { bad.push("day"); }
+                if sup.ordinal.map_or(false, |v| v != l.ordinal()) { bad.push("ordinal"); }
+                if sup.isoweek.map_or(false, |v| v != liw.week()) { bad.push("isoweek"); }
+                if sup.weekday.map_or(false, |v| v != l.weekday()) { bad.push("weekday"); }
+                if sup.week_from_sun.map_or(false, |v| v != (l.ordinal() + 6 - l.weekday().num_days_from_sunday()) / 7) { bad.push("week_from_sun"); }
+                if sup.week_from_mon.map_or(false, |v| v != (l.ordinal() + 6 - l.weekday().num_days_from_monday()) / 7) { bad.push("week_from_mon"); }
+                if sup.hour_div_12.map_or(false, |v| v != l.hour() / 12) { bad.push("hour_div_12"); }
+                if sup.hour_mod_12.map_or(false, |v| v != l.hour() % 12) { bad.push("hour_mod_12"); }
+                if sup.minute.map_or(false, |v| v != l.minute()) { bad.push("minute"); }
+                if sup.second.map_or(false, |v| v != l.second() + lleap as u32) { bad.push("second"); }
+                if sup.nanosecond.map_or(false, |v| v != l.nanosecond() % 1_000_000_000) { bad.push("nanosecond"); }
+                if sup.timestamp.map_or(false, |v| v != dt.timestamp() && !(lleap && v == dt.timestamp() + 1)) { bad.push("timestamp"); }
+                if sup.offset.map_or(false, |v| v != dt.offset().local_minus_utc()) { bad.push("offset"); }
+                if !bad.is_empty() { found("Parsed::to_datetime", format!("{:?}", sup), format!("Ok({:?}) contradicting {:?}", dt, bad), "a result that agrees with every supplied field".into()); }
+            }
+            Ok(Err(_)) => {
+                // completeness: unperturbed fields of one value with determinate year groups and a sufficient combination must resolve
+                let ydet = sup.year.is_some() || (sup.year_div_100.is_some() && sup.year_mod_100.is_some());
+                let yabs = sup.year.is_none() && sup.year_div_100.is_none() && sup.year_mod_100.is_none();
+                let idet = sup.isoyear.is_some() || (sup.isoyear_div_100.is_some() && sup.isoyear_mod_100.is_some());
+                let iabs = sup.isoyear.is_none() && sup.isoyear_div_100.is_none() && sup.isoyear_mod_100.is_none();
+                let date_ok = (ydet && ((sup.month.is_some() && sup.day.is_some()) || sup.ordinal.is_some() || (sup.week_from_sun.is_some() && sup.weekday.is_some()) || (sup.week_from_mon.is_some() && sup.weekday.is_some())))
+                    || (idet && sup.isoweek.is_some() && sup.weekday.is_some());
+                let time_ok = sup.hour_div_12.is_some() && sup.hour_mod_12.is_some() && sup.minute.is_some();
+                let sec_ok = sup.second.is_some() || (w.second() == 0 && !leap) || sup.timestamp.is_none();   // missing seconds read as zero and must then agree with a supplied timestamp
+                if !perturbed && (ydet || yabs) && (idet || iabs) && date_ok && time_ok && sec_ok && sup.offset.is_some() {
+                    found("Parsed::to_datetime", format!("{:?}", sup), "Err".into(), format!("Ok({:?} {:+})", w, o));
+                }
+            }
+        }
+    } }
+}
+
 fn twin_round(r: &mut Rng) {
     let mut xs: Vec<NaiveDateTime> = vec![];
     for s in [-9_223_372_036i64, -9_223_372_035, 9_223_372_036, 9_223_372_035, 0, -1, 1, 86399, -86400, 1_700_000_000, -1_700_000_000, -9_223_372_037, 9_223_372_037, 253_402_300_799] { for n in [0u32, 1, 499_999_999, 500_000_000, 500_000_001, 999_999_999, 145_224_192, 854_775_807] { if let Some(d) = DateTime::from_timestamp(s, n) { xs.push(d.naive_utc()); } } }
@@ -705,7 +786,8 @@ fn main() {
         "zoned" => twin_zoned(&mut r),
         "fmt" => twin_fmt(&mut r),
         "tz" => twin_tz(&mut r),
-        _ => { twin_timedelta(&mut r); twin_date(&mut r); twin_iters(&mut r); twin_time(&mut r); twin_datetime(&mut r); twin_round(&mut r); twin_week(&mut r); twin_zoned(&mut r); twin_fmt(&mut r); twin_tz(&mut r); }
+        "parsed" => twin_parsed(&mut r),
+        _ => { twin_timedelta(&mut r); twin_date(&mut r); twin_iters(&mut r); twin_time(&mut r); twin_datetime(&mut r); twin_round(&mut r); twin_week(&mut r); twin_zoned(&mut r); twin_fmt(&mut r); twin_tz(&mut r); twin_parsed(&mut r); }
     }
     unsafe { println!("DONE {} cases={} found={}", unit, CASES, FOUND); }
 }
